@@ -6,7 +6,7 @@ import os
 VERIF = os.path.dirname(os.path.dirname(os.path.abspath(__file__)))
 
 TRUSTED = ('Trusted base: /verif/contracts/prelude.rs (assumed contracts of std::io::{Read,BufRead,Write}, byteorder and crc shims, '
-           'Cursor/Vec/slice methods, src_eq axioms), extraction rewrites R1-R12 (DESIGN.md 2.1), 64-bit usize, A-CNT counter-overflow '
+           'Cursor/Vec/slice methods, src_eq axioms), extraction rewrites R0-R18 (DESIGN.md A.2), 64-bit usize, A-CNT counter-overflow '
            'assume sites, Verus 0.2026.09.13 + Z3. Functions not under contract are external_body and listed in the evidence file.')
 
 # property -> (claimed?, level text, technique, design ref, n/a reason)
@@ -164,7 +164,7 @@ def main():
                 'evidence_file': '/verif/evidence/%s.json' % p,
                 'replay_cmd_template': './vcheck %s --replay {path}' % p,
                 'engine': 'vcheck',
-                'level_claimed': {'category': 'proof', 'text': c[1], 'design_ref': 'DESIGN.md section %s' % c[3]},
+                'level_claimed': {'category': 'proof', 'text': c[1], 'design_ref': 'DESIGN.md section A.4 (%s) and section %s' % (p, c[3])},
                 'level_note': TRUSTED,
                 'technique': c[2],
             })
